@@ -175,12 +175,13 @@ class AbstractPathModelDAG(ABC):
         self.subpath_constraints_coverage = subpath_constraints_coverage
         self.subpath_constraints_coverage_length = subpath_constraints_coverage_length
         if len(subpath_constraints) > 0:
-            if self.subpath_constraints_coverage <= 0 or self.subpath_constraints_coverage > 1:
+            # (written so that NaN is rejected as well)
+            if not (0 < self.subpath_constraints_coverage <= 1):
                 utils.logger.error(f"{__name__}: subpath_constraints_coverage must be in the range (0, 1]")
                 raise ValueError("subpath_constraints_coverage must be in the range (0, 1]")
                 
             if self.subpath_constraints_coverage_length is not None:
-                if self.subpath_constraints_coverage_length <= 0 or self.subpath_constraints_coverage_length > 1:
+                if not (0 < self.subpath_constraints_coverage_length <= 1):
                     utils.logger.error(f"{__name__}: subpath_constraints_coverage_length must be in the range (0, 1]")
                     raise ValueError("If set, subpath_constraints_coverage_length must be in the range (0, 1]")
                 if self.length_attr is None:
